@@ -89,9 +89,7 @@ def run(tier, build, replay=None):
         out.coverage.update({"evaluations": n, "distinct_nontrivial": n, "rule": "replay of a multi-asset session"})
         return out.finish(proofs, build)
     if replay:
-        data = {"cases": [replay], "impl": [hist.impl_compute(replay)] if core.impl_env_setup() else None}
-        data["model"] = core.run_model([hist.line(10, hist.encode_hist(replay))])
-        data["spec"] = core.run_model([hist.line(11, hist.encode_hist(replay))])
+        data = l2.run_cases([replay])          # (an end-to-end case goes through the files and parse_ods again)
     else:
         data = l2.run(tier)
     nontriv, mism, nerr = set(), 0, 0
@@ -120,6 +118,7 @@ def run(tier, build, replay=None):
     core.proofs_verdict(out, proofs, build, "C01.v")
     out.coverage.update({
         "multi_asset_sessions": n_sessions,
+        "end_to_end_stream": hist.ods_stats(data["cases"]),
         "evaluations": len(data["cases"]),
         "distinct_nontrivial": len(nontriv),
         "rule": "generated single-asset histories (1-30 rows, all 14 types, equal instants ~30%, mixed offsets 25%, partial lots, exact exhaustion, "
